@@ -24,11 +24,11 @@ impl Check for C15 {
         "C15"
     }
     fn rule(&self) -> String {
-        "case = one grammar: a zoo grammar (30%) or a random grammar of the C03 generator (conflict-free CFGs with hidden/inlined rules, aliases, fields; operator tables). (a) the generator is run in 3 SEPARATE processes (vcheck --generate-only; fresh hash seeds, different working directory and environment, one pinned to a single CPU with taskset) through the directory interface the CLI uses, plus once in-process: parser.c and node-types.json must be byte-identical across all of them. (b) the grammar is generated with the state-merging optimisation on and off, both parsers are compiled and loaded, and on every token string up to the largest length with <= 1500 strings, 80 random derivations and their mutations (zoo grammars: 60 generated documents of all six classes) the two parsers must agree on 'has an error' and produce identical explicit trees. evaluations = strings compared + generator processes. Non-trivial: grammar accepted and the two tables differ in STATE_COUNT; distinct by hash(grammar, string).".into()
+        "case = one grammar: a zoo grammar (20%), a 'lexical context' grammar (40%: an infix operator and a delimited/prefixed literal token that starts with the operator's character - / and /re/, | and |x|, - and -1, < and <a>, % and %a - valid in different contexts, with conditional/call/statement variants; judged on every token string up to a bound joined with and without blanks) or a random grammar of the C03 generator (conflict-free CFGs with hidden/inlined rules, aliases, fields; operator tables). (a) the generator is run in 3 SEPARATE processes (vcheck --generate-only; fresh hash seeds, different working directory and environment, one pinned to a single CPU with taskset) through the directory interface the CLI uses, plus once in-process: parser.c and node-types.json must be byte-identical across all of them. (b) the grammar is generated with the state-merging optimisation on and off, both parsers are compiled and loaded, and on every token string up to the largest length with <= 1500 strings, 80 random derivations and their mutations (zoo grammars: 60 generated documents of all six classes) the two parsers must agree on 'has an error' and produce identical explicit trees. evaluations = strings compared + generator processes. Non-trivial: grammar accepted and the two tables differ in STATE_COUNT; distinct by hash(grammar, string).".into()
     }
     fn cases(&self, tier: Tier) -> u64 {
         match tier {
-            Tier::Quick => 300,
+            Tier::Quick => 450,
             Tier::Thorough => 4000,
         }
     }
@@ -45,13 +45,24 @@ impl Check for C15 {
         300
     }
     fn run_case(&self, ctx: &mut Ctx, t: &mut Tape) {
-        let zoo = t.pct(30);
+        let only_lexctx = std::env::var_os("VERIF_C15_ONLY_LEXCTX").is_some();
+        let zoo = t.pct(20) && !only_lexctx;
+        let mut lexctx_terms: Option<Vec<String>> = None;
         let (gtext, gobj, gname, scanner): (String, Option<grammar::G>, String, Option<String>) = if zoo {
             let n = *t.pick(ZOO);
             let dir = lang::zoo_dir(n);
             let text = std::fs::read_to_string(dir.join("grammar.json")).unwrap();
             ctx.label(format!("zoo:{n}"));
             (text, None, n.to_string(), std::fs::read_to_string(dir.join("scanner.c")).ok())
+        } else if t.pct(50) || only_lexctx {
+            let name = format!("x{}", t.u16());
+            let (text, terms) = lexctx_grammar(t, &name);
+            ctx.label("lexctx_grammar");
+            if let Ok(p) = std::env::var("VERIF_DUMP_GRAMMAR") {
+                let _ = std::fs::write(format!("{p}.{}", fnv(text.as_bytes()) % 1000), &text);
+            }
+            lexctx_terms = Some(terms);
+            (text, None, name, None)
         } else {
             let name = format!("d{}", t.u16());
             let wild = t_wild(t);
@@ -169,6 +180,45 @@ impl Check for C15 {
                     docs.push(join_tokens(&m).0.into_bytes());
                 }
             }
+        } else if let Some(terms) = &lexctx_terms {
+            // every token string up to a bound, joined with and without blanks (spacing decides how the lexer cuts)
+            for s in enumerate_strings(terms, 1200, 7) {
+                docs.push(join_tokens(&s).0.into_bytes());
+                docs.push(s.concat().into_bytes());
+            }
+            // sentences of the grammar (long-token samples from the term list), blank-separated, then single-token
+            // mutations and re-spacings of them
+            let gjson: Value = serde_json::from_str(&gtext).unwrap();
+            let longs: Vec<&String> = terms.iter().filter(|x| x.len() >= 2 && !x.chars().all(|c| c.is_ascii_alphabetic())).collect();
+            let meta = json!({"samples": {"long": longs.iter().take(2).collect::<Vec<_>>(), "long2": longs.iter().skip(2).take(1).collect::<Vec<_>>(), "number": ["1", "22"]}});
+            let sg = crate::gen::sentence::SentenceGen::new(&gjson, &meta);
+            let start = sg.start.to_string();
+            for _ in 0..200 {
+                let b = 2 + t.below(30) as u32;
+                let toks: Vec<String> = sg.derive(t, &start, b).into_iter().map(|k| k.text).collect();
+                if toks.is_empty() || toks.len() > 60 {
+                    continue;
+                }
+                docs.push(toks.join(" ").into_bytes());
+                let mut m = toks.clone();
+                let i = t.below(m.len());
+                match t.below(3) {
+                    0 => {
+                        m.remove(i);
+                    }
+                    1 => m.insert(i, t.pick(terms.as_slice()).clone()),
+                    _ => m[i] = t.pick(terms.as_slice()).clone(),
+                }
+                docs.push(m.join(" ").into_bytes());
+                let mut d = String::new();
+                for x in &toks {
+                    d.push_str(x);
+                    if t.pct(50) {
+                        d.push(' ');
+                    }
+                }
+                docs.push(d.into_bytes());
+            }
         } else {
             let z = lang::zoo(&gname);
             for _ in 0..60 {
@@ -207,6 +257,113 @@ impl Check for C15 {
             ctx.out.sample = json!({"grammar": gname, "zoo": zoo, "states_merged": state_count(&c_merged), "states_unmerged": state_count(&c_plain), "documents": docs.len(), "accepted": n_acc, "processes": 3});
         }
     }
+}
+
+/// Grammars whose tokens conflict lexically but are valid in different contexts (an infix operator and a delimited
+/// literal that starts with the operator's character, a minus sign and a negative literal, ...): state merging must
+/// keep such tokens out of a common look-ahead set.
+fn lexctx_grammar(t: &mut Tape, name: &str) -> (String, Vec<String>) {
+    // (operator, pattern of the long token, samples of the long token)
+    let pairs: [(&str, &str, [&str; 2]); 5] = [
+        ("/", r"\\/[^/\\n]+\\/", ["/a/", "/1 /"]),
+        ("|", r"\\|[a-z0-9 ]+\\|", ["|a|", "|1 |"]),
+        ("-", r"-[0-9]+", ["-1", "-22"]),
+        ("<", r"<[a-z]+>", ["<a>", "<if>"]),
+        ("%", r"%[a-z]+", ["%a", "%if"]),
+    ];
+    let k = t.below(pairs.len());
+    let (op, long_pat, long_samples) = pairs[k];
+    if t.pct(50) {
+        // follow-set template: one sub-rule X used in two or three contexts that continue with lexically conflicting
+        // tokens (the operator in one, the long token in another); LALR-style merging of X's states would put both
+        // into one look-ahead set
+        let x_rule = match t.below(4) {
+            0 => r#"{"type":"SEQ","members":[{"type":"STRING","value":"("},{"type":"SYMBOL","name":"number"},{"type":"STRING","value":")"}]}"#.to_string(),
+            1 => r#"{"type":"CHOICE","members":[{"type":"SYMBOL","name":"number"},{"type":"SEQ","members":[{"type":"STRING","value":"("},{"type":"SYMBOL","name":"x"},{"type":"STRING","value":")"}]}]}"#.to_string(),
+            2 => r#"{"type":"REPEAT1","content":{"type":"SYMBOL","name":"number"}}"#.to_string(),
+            _ => r#"{"type":"SEQ","members":[{"type":"SYMBOL","name":"number"},{"type":"CHOICE","members":[{"type":"SEQ","members":[{"type":"STRING","value":","},{"type":"SYMBOL","name":"number"}]},{"type":"BLANK"}]}]}"#.to_string(),
+        };
+        let esc = |s: &str| s.replace('\\', "\\\\").replace('"', "\\\"");
+        let ctx_short = format!(r#"{{"type":"SEQ","members":[{{"type":"STRING","value":"a"}},{{"type":"SYMBOL","name":"x"}},{{"type":"STRING","value":"{}"}},{{"type":"SYMBOL","name":"number"}}]}}"#, esc(op));
+        let ctx_long = r#"{"type":"SEQ","members":[{"type":"STRING","value":"b"},{"type":"SYMBOL","name":"x"},{"type":"SYMBOL","name":"long"}]}"#.to_string();
+        let ctx_none = r#"{"type":"SEQ","members":[{"type":"STRING","value":"c"},{"type":"SYMBOL","name":"x"},{"type":"STRING","value":";"}]}"#.to_string();
+        let mut ctxs: Vec<(&str, String)> = vec![("ctx_short", ctx_short), ("ctx_long", ctx_long)];
+        if t.pct(40) {
+            ctxs.push(("ctx_none", ctx_none));
+        }
+        // order of the contexts decides the state numbering
+        let n = ctxs.len();
+        for i in (1..n).rev() {
+            let j = t.below(i + 1);
+            ctxs.swap(i, j);
+        }
+        let members: Vec<String> = ctxs.iter().map(|(n, _)| format!(r#"{{"type":"SYMBOL","name":"{n}"}}"#)).collect();
+        let mut rules: Vec<String> = vec![format!(r#""source": {{"type":"REPEAT","content":{{"type":"CHOICE","members":[{}]}}}}"#, members.join(","))];
+        for (n, r) in &ctxs {
+            rules.push(format!(r#""{n}": {r}"#));
+        }
+        rules.push(format!(r#""x": {x_rule}"#));
+        rules.push(format!(r#""long": {{"type":"PATTERN","value":"{}"}}"#, long_pat));
+        rules.push(r#""number": {"type":"PATTERN","value":"[0-9]+"}"#.to_string());
+        let text = format!(r#"{{"name":"{name}","extras":[{{"type":"PATTERN","value":"\\s"}}],"conflicts":[],"precedences":[],"externals":[],"inline":[],"supertypes":[],"rules":{{{}}}}}"#, rules.join(","));
+        let terms: Vec<String> = vec!["a".into(), "b".into(), "c".into(), "(".into(), ")".into(), "1".into(), ",".into(), ";".into(), op.to_string(), long_samples[0].to_string(), long_samples[1].to_string()];
+        return (text, terms);
+    }
+    let second = if t.pct(35) { Some(pairs[(k + 1 + t.below(pairs.len() - 1)) % pairs.len()]) } else { None };
+    let kw = *t.pick(&["if", "do", "not"]);
+    let with_cond = t.pct(85);
+    let with_call = t.pct(40);
+    let with_stmt = t.pct(40);
+    let cond_prec = *t.pick(&[1i32, 0, 2, -1]);
+    let assoc = *t.pick(&["PREC_LEFT", "PREC_RIGHT"]);
+    let mut members = vec!["binary", "long", "number", "parenthesized"];
+    if with_cond {
+        members.push("conditional");
+    }
+    if with_call {
+        members.push("call");
+    }
+    if second.is_some() {
+        members.push("binary2");
+        members.push("long2");
+    }
+    let mem_json: Vec<String> = members.iter().map(|m| format!(r#"{{"type":"SYMBOL","name":"{m}"}}"#)).collect();
+    let mut rules: Vec<String> = vec![];
+    let esc = |s: &str| s.replace('\\', "\\\\").replace('"', "\\\"");
+    if with_stmt {
+        rules.push(r#""program": {"type":"REPEAT","content":{"type":"SEQ","members":[{"type":"SYMBOL","name":"expression"},{"type":"STRING","value":";"}]}}"#.to_string());
+    }
+    rules.push(format!(r#""expression": {{"type":"CHOICE","members":[{}]}}"#, mem_json.join(",")));
+    rules.push(format!(r#""binary": {{"type":"{assoc}","value":0,"content":{{"type":"SEQ","members":[{{"type":"SYMBOL","name":"expression"}},{{"type":"STRING","value":"{}"}},{{"type":"SYMBOL","name":"expression"}}]}}}}"#, esc(op)));
+    rules.push(format!(r#""long": {{"type":"PATTERN","value":"{}"}}"#, long_pat));
+    if let Some((op2, pat2, _)) = second {
+        rules.push(format!(r#""binary2": {{"type":"PREC_LEFT","value":1,"content":{{"type":"SEQ","members":[{{"type":"SYMBOL","name":"expression"}},{{"type":"STRING","value":"{}"}},{{"type":"SYMBOL","name":"expression"}}]}}}}"#, esc(op2)));
+        rules.push(format!(r#""long2": {{"type":"PATTERN","value":"{}"}}"#, pat2));
+    }
+    rules.push(r#""number": {"type":"PATTERN","value":"[0-9]+"}"#.to_string());
+    rules.push(r#""parenthesized": {"type":"SEQ","members":[{"type":"STRING","value":"("},{"type":"SYMBOL","name":"expression"},{"type":"STRING","value":")"}]}"#.to_string());
+    if with_cond {
+        rules.push(format!(r#""conditional": {{"type":"PREC_LEFT","value":{cond_prec},"content":{{"type":"SEQ","members":[{{"type":"STRING","value":"{kw}"}},{{"type":"SYMBOL","name":"parenthesized"}},{{"type":"SYMBOL","name":"expression"}}]}}}}"#));
+    }
+    if with_call {
+        rules.push(r#""call": {"type":"PREC","value":5,"content":{"type":"SEQ","members":[{"type":"STRING","value":"f"},{"type":"SYMBOL","name":"parenthesized"}]}}"#.to_string());
+    }
+    let text = format!(r#"{{"name":"{name}","extras":[{{"type":"PATTERN","value":"\\s"}}],"conflicts":[],"precedences":[],"externals":[],"inline":[],"supertypes":[],"rules":{{{}}}}}"#, rules.join(","));
+    let mut terms: Vec<String> = vec![op.to_string(), long_samples[0].to_string(), long_samples[1].to_string(), "1".into(), "(".into(), ")".into()];
+    if with_cond {
+        terms.push(kw.to_string());
+    }
+    if with_call {
+        terms.push("f".into());
+    }
+    if with_stmt {
+        terms.push(";".into());
+    }
+    if let Some((op2, _, s2)) = second {
+        terms.push(op2.to_string());
+        terms.push(s2[0].to_string());
+    }
+    (text, terms)
 }
 
 fn t_wild(t: &mut Tape) -> bool {
